@@ -26,6 +26,9 @@ func main() {
 		},
 		Gen: func(r *hx.RNG, tr *hx.Trace) fsmx.Case { return fsmx.GenCase(r, "c23", tr) },
 		// every state x connection condition (healthy / writes fail / peer closed) x event, exhaustively
-		Extra: func(cfg *hx.Cfg, do func(id string, c fsmx.Case)) { fsmx.ExitProduct(do, "SFE", false) },
+		Extra: func(cfg *hx.Cfg, do func(id string, c fsmx.Case)) {
+			fsmx.ExitProduct(do, "SFE", false)
+			fsmx.PolicyProduct(do)
+		},
 	})
 }
